@@ -263,6 +263,9 @@ pub uninterp spec fn bin_of<T>(t: T) -> Binary;
 // String::to_lowercase: an uninterpreted function of the text
 pub uninterp spec fn lower_of(s: Seq<char>) -> Seq<char>;
 pub assume_specification[ str::to_lowercase ](s: &str) -> (r: String) ensures r@ == lower_of(s@);
+// str::eq_ignore_ascii_case: equality of the ASCII-lower-cased texts (weaker than equality: "uusd" and "UUSD" are different bank denoms)
+pub uninterp spec fn ascii_lower_of(s: Seq<char>) -> Seq<char>;
+pub assume_specification[ str::eq_ignore_ascii_case ](a: &str, b: &str) -> (r: bool) ensures r == (ascii_lower_of(a@) == ascii_lower_of(b@));
 // deserialisation is a deterministic (uninterpreted) function of the bytes
 pub uninterp spec fn decode<T>(b: Binary) -> StdResult<T>;
 #[verifier::external_body] pub fn from_binary<T>(b: &Binary) -> (r: StdResult<T>) ensures r == decode::<T>(*b) { unimplemented!() }
